@@ -377,6 +377,7 @@ func (h *H) eval(cs Case) *rig.Failure {
 				if err := c.Model("C20.op", h.modelArgs(st, fl, zeroDeep, old, oldDeep, deepGroups(sub)), &m); err != nil {
 					return fail("diff", "c20.model-error", err.Error(), nil)
 				}
+				h.obs["step:status:no-such-endpoint"]++
 				if m.Rej != "notServed" {
 					return fail("diff", "c20.served", fmt.Sprintf("step %d: no status endpoint is served for %s but the model answers %q", i, s.Name, m.Rej), m)
 				}
@@ -392,6 +393,9 @@ func (h *H) eval(cs Case) *rig.Failure {
 		subDeep := deepGroups(obj)
 		if old != nil {
 			h.viewAgreement(old, obj)
+			if (subDeep.Spec != oldDeep.Spec && subDeep.SpecSem == oldDeep.SpecSem) || (subDeep.Annotations != oldDeep.Annotations && subDeep.AnnotationsSem == oldDeep.AnnotationsSem) {
+				h.obs["requests-differing-from-stored-only-by-empty-vs-absent"]++
+			}
 		}
 		var err1 error
 		msg, panicked := rig.Recover(func() {
@@ -477,8 +481,13 @@ func (h *H) eval(cs Case) *rig.Failure {
 			return fail("diff", "c20.store-accept", fmt.Sprintf("step %d (%s on %s): BeforeCreate/BeforeUpdate error=%q but the store's error=%q", i, st.Op, s.Name, errClass(err1), errClass(err2)), nil)
 		}
 		if err2 != nil {
-			h.obs["rejected"]++
+			h.obs["step:"+st.Op+":rejected"]++
 			continue
+		}
+		if created {
+			h.obs["step:"+st.Op+":created"]++
+		} else {
+			h.obs["step:"+st.Op+":accepted"]++
 		}
 		if created != m.Created {
 			return fail("diff", "c20.created", fmt.Sprintf("step %d (%s on %s): store created=%v, model created=%v", i, st.Op, s.Name, created, m.Created), nil)
@@ -531,7 +540,11 @@ func (h *H) judge(cs Case, trace []stepTrace, s *Served, i int, st Step, created
 	if len(j.Violations) > 0 {
 		v := j.Violations[0]
 		class := "c20." + v
-		what := fmt.Sprintf("step %d: %s of %s (%s): %s; stored %+v, answered %+v", i, st.Op, s.Kind, s.Name, v, oldAPI, out2API)
+		storedTxt := fmt.Sprintf("stored %+v", oldAPI)
+		if created {
+			storedTxt = "nothing stored (the request created the object)"
+		}
+		what := fmt.Sprintf("step %d: %s of %s (%s): %s; %s, answered %+v", i, st.Op, s.Kind, s.Name, v, storedTxt, out2API)
 		if v == "generation-bumped-without-change" && (subDeep.Spec != oldDeep.Spec || subDeep.Annotations != oldDeep.Annotations) {
 			// spec and annotations read the same before and after, but the decoded Go values differ
 			// (a spelled-out empty list/map/bytes against a missing one): findings/C20-empty-vs-absent-bumps-generation
@@ -835,7 +848,7 @@ func (h *H) genCase(s *Served, stream string) Case {
 		switch {
 		case !exists && r.Intn(3) != 0:
 			st.Op = "create"
-		case r.Intn(5) < 3:
+		case r.Intn(5) < 3 || (s.Status == nil && r.Intn(4) != 0):
 			st.Op = "main"
 		default:
 			st.Op = "status"
@@ -948,6 +961,33 @@ func (h *H) checkRegistrations() {
 	c.SetExtra("registrations", real)
 }
 
+// judgeControl: a deliberately INCONSISTENT registration (status subresource served, main strategy built with
+// subStatus=false — what c20_registrations_consistent excludes for rest.go). A main-resource update that changes
+// the status must be flagged by the judge; if it is not, the harness has stopped judging.
+func (h *H) judgeControl() {
+	c := h.c
+	p := h.planes[0]
+	wg := runtimeschema.GroupVersionKindResource{Group: widgetGV.Group, Version: widgetGV.Version, Kind: "Widget", Resource: "widgets"}
+	s, err := p.AddProbe("control:widgets-inconsistent", wg, registry.NewDefaultRESTStrategy(true, false), true, jsonMedia)
+	if err != nil {
+		c.Fail(rig.Failure{Kind: "diff", Class: "c20.plane", What: "control registration: " + err.Error()})
+		return
+	}
+	p.Served = p.Served[:len(p.Served)-1] // never part of the generated cases
+	h.served[s.Name] = s
+	defer delete(h.served, s.Name)
+	doc := func(phase string) json.RawMessage {
+		return json.RawMessage(`{"metadata":{"name":"a","namespace":"ns1","uid":"uid-a","creationTimestamp":"2023-11-14T22:13:20Z","generation":5},"spec":{"mode":"m"},"status":{"phase":"` + phase + `"}}`)
+	}
+	cs := Case{Served: s.Name, Stream: "control", Stored: doc("old"), Steps: []Step{{Op: "main", Submitted: doc("new"), MetaValid: true}}}
+	f := h.eval(cs)
+	if f == nil || f.Kind != "judge" || f.Class != "c20.main-update-changed-status" {
+		c.Fail(rig.Failure{Kind: "diff", Class: "c20.judge-control", What: "the judge did not flag a main-resource update that changed the status on the deliberately inconsistent control registration", Case: cs, Impl: f})
+		return
+	}
+	c.Count("control:judge-flags-inconsistent-registration")
+}
+
 func (h *H) addPlane(media, suffix string) error {
 	p, err := NewPlane(media)
 	if err != nil {
@@ -990,7 +1030,7 @@ func main() {
 	installWidget()
 	rig.Main("C20", func(c *rig.Ctx) {
 		h := &H{c: c, served: map[string]*Served{}, obs: map[string]int{}}
-		c.SetRule("a case = one way a kind is served (the 2 registrations of rest.go as the real NewRESTStorageProvider builds them + 4 probe registrations through the same NewResourceREST; protobuf storage, JSON too in thorough) x an initial stored object or none x 1-6 requests (create / main update / status update; bodies are JSON documents derived from the stored one with any subset of {labels, annotations, spec, status, generation, other metadata} changed, spec/status filled by reflection from small pools so that draws collide; streams: roundtrip (no explicit empties), explicit-empty ({} [] \"\" null spelled out), invalid-meta, extreme (stored generation MaxInt64/negative/0), history); distinct = distinct canonical case; non-trivial = some field group differs or the object is new")
+		c.SetRule("a case = one way a kind is served (the 2 registrations of rest.go as the real NewRESTStorageProvider builds them + 4 probe registrations through the same NewResourceREST; protobuf storage, JSON too in thorough) x an initial stored object or none x 1-6 requests (create / main update / status update; bodies are JSON documents derived from the stored one with any subset of {labels, annotations, spec, status, generation, other metadata} changed, spec/status filled by reflection from small pools so that draws collide; the histogram's differs:<mask> says which groups of the first request differ from the stored object, L=labels A=annotations S=spec T=status G=generation; streams: roundtrip (no explicit empties), explicit-empty ({} [] \"\" null spelled out), invalid-meta, extreme (stored generation MaxInt64/negative/0), history); distinct = distinct canonical case; non-trivial = some field group differs or the object is new")
 		if err := h.addPlane(protobufMedia, ""); err != nil {
 			c.Fail(rig.Failure{Kind: "diff", Class: "c20.plane", What: "the control plane's REST storage can no longer be built the way the harness does: " + err.Error()})
 			return
@@ -1007,6 +1047,7 @@ func main() {
 			return
 		}
 		h.checkRegistrations()
+		h.judgeControl()
 		for _, s := range h.planes[0].Served {
 			if s.Registered && s.Status != nil {
 				if f, ok := reflect.TypeOf(s.Main.NewFunc()).Elem().FieldByName("Status"); ok && f.Type.Kind() == reflect.Struct && f.Type.NumField() == 0 {
@@ -1049,7 +1090,9 @@ func main() {
 			if len(ops) > 2 {
 				ops = fmt.Sprintf("%d-steps", len(ops))
 			}
-			c.Case(rig.Canon(cs), mask != "none", fmt.Sprintf("%s/%s/%s/%s", s.Name, stream, ops, mask), func() interface{} { return cs })
+			c.Case(rig.Canon(cs), mask != "none", s.Name+"/"+stream, func() interface{} { return cs })
+			c.Count("requests:" + ops)
+			c.Count("differs:" + mask)
 			c.Trace()
 			if f0 := h.eval(cs); f0 != nil {
 				small := h.shrink(cs, f0.Class)
